@@ -477,13 +477,19 @@ fn compile_reference_inputs(tx: &tir::Tx) -> Result<Vec<primitives::TransactionI
 }
 
 fn compile_collateral(tx: &tir::Tx) -> Result<Vec<TransactionInput>, Error> {
-    tx.collateral
+    let mut refs = tx
+        .collateral
         .iter()
         .filter_map(|collateral| collateral.utxos.as_option())
         .flat_map(coercion::expr_into_utxo_refs)
         .flatten()
         .map(|x| compile_tx_input(&x))
-        .collect()
+        .collect::<Result<Vec<_>, _>>()?;
+
+    // same as the regular inputs: don't let hash set order reach the tx bytes
+    refs.sort_by_key(|x| (x.transaction_id, x.index));
+
+    Ok(refs)
 }
 
 fn compile_required_signers(tx: &tir::Tx) -> Result<Option<primitives::RequiredSigners>, Error> {
